@@ -777,7 +777,7 @@ def _session_case(ctx, model, name, n, n_test, b, ep, extra, pre=None, vars0=Fal
 
                 ctx.disagree("flax.session.schedule", {**case, "train_call": which}, a, mm, oracle=oracle)
                 return
-            want_rows = [sp[consumed + e[1]] for e in evs]
+            want_rows = [sp[e[1]] for e in evs]  # the model's batch index (a second train() continues the same iterator)
             if r["rows"] != want_rows or not r["pair"]:
                 ctx.disagree("flax.session.batches", {**case, "train_call": which}, {"rows": r["rows"], "paired": r["pair"]}, {"rows": want_rows, "paired": True},
                              oracle=lambda c, r=r: ({"case": c, "what": "image and label rows delivered to the train step are not the same rows"} if not r["pair"] else None))
@@ -802,12 +802,14 @@ def _corr_session(ctx, model):
         ("variables0-no-restore", 6, 4, 2, 2, {**base, "log": False}, [2], True, False),
         ("spc=0", 6, 4, 2, 1, {**base, "steps_per_checkpoint": 0, "log": False}, None, False, False),
         ("batch>n", 3, 4, 4, 2, {"checkpointing": True, "log": False}, None, False, False),
+        # default periods (10 and 20 epochs): 1 step per epoch, 21 epochs -> checkpoints at 10, 20, 21 and one logged step
+        ("defaults", 3, 3, 2, 21, {"checkpointing": True, "log": True}, None, False, False),
     ]
     if ctx.thorough:
         cases += [
             ("no-checkpointing", 6, 4, 2, 2, {"checkpointing": False, "log": False, "steps_per_checkpoint": 2, "log_every_steps": 3}, [1], False, False),
             ("log_every=0", 6, 4, 2, 1, {**base, "log_every_steps": 0}, None, False, False),
-            ("defaults", 7, 5, 3, 2, {"checkpointing": True, "log": True}, [1], False, False),
+            ("defaults-long", 4, 4, 2, 11, {"checkpointing": True, "log": True}, None, False, False),
             ("target-below-latest", 6, 4, 2, 1, {**base, "log": False}, [3], False, True),
             ("incomplete-batch+eval-default", 7, 5, 2, 2, {"checkpointing": True, "log": True, "log_every_steps": 2, "steps_per_checkpoint": 3}, None, False, False),
         ]
